@@ -91,7 +91,11 @@ class Pool:
                     res['_task'] = w['task']
                     w['task'] = None
                     done += 1
-                    on_result(res)
+                    if on_result(res):
+                        # abort requested (mutant evaluation only): drop what has not started, do not wait for the rest
+                        for x in self.workers:
+                            self._retire(x)
+                        return
                 elif time.time() - w['t0'] > w['task']['hard_deadline']:
                     res = {'verdict': 'inconclusive', 'task': _tk(w['task']),
                            'messages': [('HARD_TIMEOUT', 'worker killed after %ds' % w['task']['hard_deadline'])],
@@ -311,6 +315,7 @@ def _run(prop, tier, only, jobs, seed, scratch, t0):
         print('  %-10s %-7s cube %3d  %-12s paths=%-6d solver=%-6d %.1fs' % (
             t['query'], t['mode'], t['cube_idx'], res['verdict'], res.get('paths', 0),
             res.get('solver_checks', 0), res.get('wall_s', 0)), flush=True)
+        return bool(os.environ.get('VERIF_STOP_ON_FIRST')) and t['mode'] == 'main' and res['verdict'] == 'cex'
 
     Pool(scratch, jobs).run(tasks, on_result)
 
@@ -380,6 +385,9 @@ def _run(prop, tier, only, jobs, seed, scratch, t0):
                                   % (rec['query'], path, rec['text'], text))
 
     # -- evidence
+    if os.environ.get('VERIF_STOP_ON_FIRST'):
+        harness_errors = [e for e in harness_errors if 'twin' not in e]
+        inconclusive.append('run aborted at the first counterexample (VERIF_STOP_ON_FIRST): remaining cubes not explored')
     for qn, pq in per_query.items():
         if pq.get('empty_cubes', 0) >= pq['cubes']:
             harness_errors.append('query %s: every cube is empty (precondition unsatisfiable)' % qn)
